@@ -659,7 +659,7 @@ fn transcripts(ctx: &Ctx, sub: &Sub) {
                 i += 1;
             });
             let case = found.unwrap_or_default();
-            let outcome = observe_case(&case);
+            let outcome = vbase::engine::catch(|| observe_case(&case)).unwrap_or_else(|p| format!("PANIC:{p}"));
             let f = Fail::new("C17/transcript-differs", format!("builds {} and {other} disagree on case {k} ({}): outcome in {}: {}", ctx.config, show_bytes(&case, 200), ctx.config, vbase::refjson::trunc(&outcome, 600)));
             ctx.record_violation(sub, &case, f);
             return;
